@@ -861,7 +861,24 @@ def rule_PL6(ctx, tier):
         tsites = [bb for bb in sites(stb, WT + "set_tower_status") if "TowerStatus::TemporaryUnreachable" in og.show(arg_origin(ctx, stb, bb, 2))]
         run_sites = [bb for bb in sites(stb, RT + "set_status") if "RetrierStatus::Running" in og.show(arg_origin(ctx, stb, bb, 1))]
         sub_err = lambda fs: any(x[0] == "truth" and x[2] is True and has_call(x[1], "TowerStatus::is_subscription_error") for x in fs)
-        if tsites and run_sites and reaches_unless(ctx, stb, [0], tsites, run_sites, sub_err) and all(truth_fact(ctx, stb, bb, "TowerStatus::is_subscription_error") is False for bb in tsites):
+        def _runs_unflagged():
+            """can `set_status(Running)` be reached from the entry without passing a flagging site, other than through an edge
+            on which the tower is known to be in SubscriptionError?  (a path that returns before the retrier runs is not a run)"""
+            seen, st = set(), [0]
+            while st:
+                x = st.pop()
+                if x in seen or x in tsites:
+                    continue
+                seen.add(x)
+                if x in run_sites:
+                    return True
+                sf = ctx.pf.switch_facts(stb, x) if stb.term(x)["k"] == "switch" else {}
+                for y in stb.succ(x):
+                    if sub_err(sf.get(y, ())):
+                        continue
+                    st.append(y)
+            return False
+        if tsites and run_sites and not _runs_unflagged() and all(truth_fact(ctx, stb, bb, "TowerStatus::is_subscription_error") is False for bb in tsites):
             rr.ok("start: tower flagged TemporaryUnreachable before the retrier runs, unless (and only unless) it is in SubscriptionError")
         else:
             rr.fail("start:tower-status", "Retrier::start does not flag the tower TemporaryUnreachable exactly when it is not in SubscriptionError before setting the retrier Running: a woken retrier runs for a tower that still reads Unreachable (new revocations are then kept from it), or a subscription error is overwritten and the retry never re-registers", where=stb.span)
@@ -1403,4 +1420,48 @@ def rule_PT(ctx, tier):
         else:
             rr.fail("address-classification", "AddressType::get_type does not answer TorV3 exactly for the addresses that contain `.onion:` (%s): onion hosts with another shape (a subdomain label, a future key length) are dialled as clearnet and can never be reached" % ("; ".join(x[1] for x in bad[:3]) or "TorV3 / IpV4 sites not found"), where=gt.line_of(bad[0][0]) if bad else gt.span)
     rr.require_floor(9, "named predicates folded")
+    return rr
+
+
+# ------------------------------------------------------------------------------------------------------------------ PL9
+def rule_PL9(ctx, tier):
+    """every request the client makes to a tower is bounded in time: a tower that takes the connection and never answers
+    (frozen host, dropped packets, a body trickled in) must end up as a connection error like any other outage, or the
+    retrier stays Running for ever (never Idle, never Unreachable, `retrytower` refused) and the revocation hook never returns"""
+    rr = RuleResult("PL9", "every HTTP request to a tower carries a deadline (client or request timeout on every path to send)")
+    P = ctx.prog
+    rq = P.bodies.get("watchtower_plugin::net::http::request::{closure#0}")
+    if rq is None:
+        rr.anchor_missing("watchtower_plugin::net::http::request")
+        return rr
+    sends = sites(rq, "reqwest::RequestBuilder::send")
+    deadlines = [bb for bb, t in rq.calls() if (call_target(t) or "") in ("reqwest::ClientBuilder::timeout", "reqwest::RequestBuilder::timeout", "reqwest::ClientBuilder::read_timeout")]
+    # a wrapper future: tokio::time::timeout(.., send()) around the await
+    wrapped = [bb for bb, t in rq.calls() if (call_target(t) or "").endswith("tokio::time::timeout")]
+    if not sends:
+        rr.anchor_missing("reqwest::RequestBuilder::send in net::http::request")
+        return rr
+    for sbb in sends:
+        seen, st, reach = set(), [0], False
+        while st:
+            x = st.pop()
+            if x in seen:
+                continue
+            seen.add(x)
+            if x == sbb:
+                reach = True
+                break
+            if x in deadlines:
+                continue
+            st.extend(rq.succ(x))
+        if not reach or wrapped:
+            rr.ok("request: every path to send() sets a timeout", sample={"rule": "PL9", "send": rq.line_of(sbb), "deadline sites": len(deadlines) + len(wrapped)})
+        else:
+            rr.fail("request-without-deadline", "`net::http::request` can reach `RequestBuilder::send` with a client that has no timeout (`reqwest::Client::new()` / a builder without `.timeout(..)`): a tower that accepts the connection and never answers keeps `Retrier::run` and the commitment_revocation hook waiting for ever — the retrier stays Running, the tower never reads unreachable, `retrytower` is refused and the towers after it in the hook's loop get nothing", where=rq.line_of(sbb))
+    # the error arm of the await classifies a timeout as a connection error (that is what makes the retrier back off)
+    cls = [cid for cid in P.family(rq.id) if cid != rq.id and sites(P.bodies[cid], "reqwest::Error::is_timeout")]
+    if cls:
+        rr.ok("a timed-out request is classified with the connection errors")
+    else:
+        rr.fail("timeout-not-classified", "no closure of `net::http::request` looks at `reqwest::Error::is_timeout`: a request that ran into its deadline is not told apart from a malformed exchange", where=rq.span)
     return rr
